@@ -349,6 +349,22 @@ def _quirks():
         q["programRollback"] = True
     else:
         raise ExtractionError("Program.__new__: snapshot/rollback used in an unmodelled way")
+    # match_labels: END DO with a different label -> restore + return None?
+    lab_ifs = [n for n in ast.walk(tree) if isinstance(n, ast.If) and isinstance(n.test, ast.Compare)
+               and isinstance(n.test.left, ast.Name) and n.test.left.id == "start_label"
+               and len(n.test.ops) == 1 and isinstance(n.test.ops[0], ast.NotEq)]
+    if len(lab_ifs) != 1:
+        raise ExtractionError("BlockBase.match: `if start_label != end_label` not found")
+    lb = lab_ifs[0].body
+    if len(lb) == 1 and isinstance(lb[0], ast.Continue):
+        q["endDoLabelMismatchFails"] = False
+    elif len(lb) == 2 and isinstance(lb[0], ast.If) and isinstance(lb[1], ast.Continue) \
+            and "End_Do_Stmt" in ast.dump(lb[0].test) and "isinstance" in ast.dump(lb[0].test) \
+            and any(isinstance(x, ast.Return) for x in lb[0].body) \
+            and "restore_reader" in ast.dump(ast.Module(body=lb[0].body, type_ignores=[])):
+        q["endDoLabelMismatchFails"] = True
+    else:
+        raise ExtractionError("BlockBase.match: label-mismatch branch has an unmodelled shape")
     # the same-label DO hook: does it skip leading comments first?
     hook_ifs = [n for n in ast.walk(tree) if isinstance(n, ast.If)
                 and isinstance(n.test, ast.Name) and n.test.id == "enable_do_label_construct_hook"]
@@ -671,7 +687,7 @@ def render_lean(t):
                                              "nameMismatchSyntax", "nameMismatchRemoves",
                                              "seqRestores", "startNameNoneSyntax",
                                              "programContinues", "programRollback",
-                                             "hookSkipsComments"]))
+                                             "hookSkipsComments", "endDoLabelMismatchFails"]))
     L.append("  }")
     L.append("")
     L.append("def program : Cls := %d" % t["program"])
